@@ -69,6 +69,8 @@ Templates == IF Level = 1 THEN TplQuick ELSE TplThorough
 \*   trunc at = k                  only the first k bytes arrive
 \*   cut   at = k                  the message ends after k bytes and record / handshake length say so:
 \*                                 the inner structure runs past the end of a self-consistent record
+\*   cutx  at = k                  as cut, and the length of the extension block says so too: the cut
+\*                                 falls into an extension / the server name list of a consistent block
 \*   hdr   (size function)         i = record length, at = handshake length written into the 9-byte header
 C(kind, f, i, how, at) == [kind |-> kind, f |-> f, i |-> i, how |-> how, at |-> at, f2 |-> "", i2 |-> 0, how2 |-> ""]
 C2(f, i, how, f2, i2, how2) == [kind |-> "len", f |-> f, i |-> i, how |-> how, at |-> 0, f2 |-> f2, i2 |-> i2, how2 |-> how2]
@@ -112,10 +114,14 @@ Full(c, m) ==
     LET b == Body(c, m)
         hs == U8(IF c.kind = "type" /\ c.f = "hs" THEN c.at ELSE 1) \o U24(Decl(c, "hs", 0, Len(b), 16777215)) \o b IN
     U8(IF c.kind = "type" /\ c.f = "rec" THEN c.at ELSE 22) \o U16(769) \o U16(Decl(c, "rec", 0, Len(hs), 65535)) \o hs
+\* 0-based offset of the length field of the extension block
+ExtsOff(m) == 48 + m.sid + 2 * m.ncs
 Ser(c, m) == LET f == Full(c, m) IN
              IF c.kind = "trunc" THEN SubSeq(f, 1, c.at)
              ELSE IF c.kind = "hdr" THEN SubSeq(f, 1, 3) \o U16(c.i) \o <<1>> \o U24(c.at) \o SubSeq(f, 10, Len(f))
              ELSE IF c.kind = "cut" THEN SubSeq(f, 1, 3) \o U16(c.at - 5) \o <<1>> \o U24(c.at - 9) \o SubSeq(f, 10, c.at)
+             ELSE IF c.kind = "cutx" THEN SubSeq(f, 1, 3) \o U16(c.at - 5) \o <<1>> \o U24(c.at - 9) \o SubSeq(f, 10, ExtsOff(m))
+                                          \o U16(c.at - ExtsOff(m) - 2) \o SubSeq(f, ExtsOff(m) + 3, c.at)
              ELSE f
 
 \* the length fields a message has
@@ -150,6 +156,7 @@ CorrsOf(m) ==
     \cup { C("type", "hs", 0, "", v) : v \in {0, 2, 22} }
     \cup { C("trunc", "", 0, "", k) : k \in TruncPoints(n) }
     \cup { C("cut", "", 0, "", k) : k \in TruncPoints(n) \ (0..9) }
+    \cup (IF m.hasext THEN { C("cutx", "", 0, "", k) : k \in TruncPoints(n) \ (0..(ExtsOff(m) + 1)) } ELSE {})
     \cup (IF Level = 2 /\ m.id \in {"sni-only", "tls13", "other-first"}
           THEN { C2(fg[1][1], fg[1][2], h, fg[2][1], fg[2][2], h2) :
                    fg \in { x \in LenFields(m) \X LenFields(m) : Before(x[1], x[2]) }, h \in Hows, h2 \in Hows }
